@@ -1,1 +1,8 @@
 import Lemmas.Hoare
+import Lemmas.Fold
+import Lemmas.Unicode
+import Lemmas.Strip
+import Lemmas.Int
+import Lemmas.Str
+import Lemmas.Util
+import Lemmas.Vc
